@@ -70,6 +70,9 @@ type p2pRig struct {
 	dials             []*dialTask
 	dialSeq           int
 	dialsClosed       bool
+	addrTold          []addrTold      // addresses sent in addr messages (known to the service once delivered)
+	knownAddr         map[string]bool // hosts whose address the service has been told (DNS seed, addr messages)
+	refusals          map[string]int  // refused dials per host
 	everLongest       map[string]bool // every header that was on the longest chain at some quiescent point
 	startTip          int             // height of the stored tip when the service was started (checkpoints at or below it count as passed)
 	replayingDeferred bool
@@ -303,10 +306,12 @@ func p2psimRun(r *Run) {
 	g.outbound = r.Opt["race"] != "1" && r.Opt["outbound"] != "0" && (r.Opt["outbound"] == "1" || t.Chance(1, 3, "outbound-class"))
 	r.Cfg["outbound"] = g.outbound
 	var seedIPs []net.IP
+	g.knownAddr, g.refusals = map[string]bool{}, map[string]int{}
 	if g.outbound {
 		for _, n := range g.nodes {
 			if t.Chance(2, 3, "in-dns-seed") {
 				seedIPs = append(seedIPs, n.ip)
+				g.knownAddr[n.ip.String()] = true
 			}
 		}
 	}
@@ -449,6 +454,11 @@ func (g *p2pRig) uniqueInstant() {
 	}
 }
 
+type addrTold struct {
+	c    *nodeConn
+	host string
+}
+
 type dialAnswer struct {
 	conn net.Conn
 	err  error
@@ -505,6 +515,7 @@ func (g *p2pRig) answerDial(tk *dialTask, connect bool) {
 	if !connect || node == nil {
 		g.r.Logf("dial %s -> refused", tk.addr)
 		g.r.Fault("dial-refused")
+		g.refusals[host]++
 		tk.ch <- dialAnswer{nil, errors.New("simnet: connection refused")}
 		return
 	}
@@ -687,6 +698,7 @@ func (g *p2pRig) nodeReceive(c *nodeConn, m wire.Message) {
 		for _, x := range g.nodes {
 			if x != n {
 				_ = am.AddAddress(wire.NewNetAddressTimestamp(time.Unix(g.now().Unix(), 0), wire.SFNodeNetwork, x.ip, 8333))
+				g.addrTold = append(g.addrTold, addrTold{c, x.ip.String()})
 			}
 		}
 		_ = am.AddAddress(wire.NewNetAddressTimestamp(time.Unix(g.now().Unix(), 0), wire.SFNodeNetwork, net.IPv4(99, byte(90+n.idx), 1, 1), 8333))
@@ -1510,6 +1522,7 @@ func (g *p2pRig) heal() {
 	// up for the first time the honest node finds a few more blocks, one at a time, each announced once (by every
 	// node that follows it); after each of them the service has to catch up again, without the help of a later
 	// announcement
+	var fresh []*nodeConn // connections the honest node opened during healing
 	lastBlocks := g.t.Range(0, 2, "heal-last-blocks")
 	r.Cfg["heal_last_blocks"] = lastBlocks
 	caughtUp := false
@@ -1520,6 +1533,7 @@ func (g *p2pRig) heal() {
 		if len(g.liveConns(func(c *nodeConn) bool { return c.node == H })) == 0 {
 			// a banned or over-limit host would be refused; the honest node never misbehaves
 			c := g.connect(H)
+			fresh = append(fresh, c)
 			r.Logf("heal: honest node reconnects as %s", c)
 		}
 		if mode == "others-follow" {
@@ -1581,8 +1595,9 @@ func (g *p2pRig) heal() {
 			continue
 		}
 		// liveness assumption of the real network: the honest node finds and announces a new block now and then
-		if reconnect && round%7 == 0 && len(g.liveConns(func(c *nodeConn) bool { return c.node == H })) < 3 {
+		if reconnect && round%7 == 0 && len(g.liveConns(func(c *nodeConn) bool { return c.node == H && c.inbound })) < 3 {
 			c := g.connect(H)
+			fresh = append(fresh, c)
 			r.Logf("heal: honest node opens a fresh connection %s", c)
 		}
 		if caughtUp {
@@ -1609,7 +1624,15 @@ func (g *p2pRig) heal() {
 	if tip != nil {
 		th, thh = tip.Height, tip.Hash.String()[:8]
 	}
-	sig := fmt.Sprintf("mode=%s,reconnect=%v,ck-disabled=%v,fresh=%v", mode, reconnect, g.disableCk, g.fresh)
+	// "reconnect" in the signature says whether a fresh connection of the honest node was actually taken up while
+	// healing (with its host at the per-host limit, or enough connections open already, none is)
+	reconnected := false
+	for _, c := range fresh {
+		if c.gotVer && c.gotVerack {
+			reconnected = true
+		}
+	}
+	sig := fmt.Sprintf("mode=%s,reconnect=%v,ck-disabled=%v,fresh=%v", mode, reconnected, g.disableCk, g.fresh)
 	if caughtUp {
 		sig += ",after-catching-up"
 	}
@@ -1670,8 +1693,92 @@ func (g *p2pRig) converged() bool {
 	return true
 }
 
+// outboundRestored (outbound class, end of the healing phase): every dial now succeeds and nobody misbehaves any more -
+// so the service either reaches its outbound target (8) or ends up with an outbound connection to every host whose
+// address it was told, that is not banned, and that has room under the per-host limit ("keeps asking for addresses and dialling ... replaces an outbound connection that closes; counters return
+// to zero when the peers have left, so limits neither leak nor wedge admission over time").
+func (g *p2pRig) outboundRestored() {
+	r := g.r
+	if !g.outbound {
+		return
+	}
+	// addresses the service has been told: seed + addr messages that were delivered on a live connection
+	for _, at := range g.addrTold {
+		if at.c.nodeEnd.PendingOut() == 0 && !at.c.partitioned {
+			g.knownAddr[at.host] = true
+		}
+	}
+	missing := func() []string {
+		var out []string
+		est := 0
+		for _, c := range g.conns {
+			if !c.inbound && !c.closed && !c.dead {
+				est++
+			}
+		}
+		if est >= 8 {
+			return nil // the target is reached (several connections to one host may count towards it)
+		}
+		for _, n := range g.nodes {
+			host := n.ip.String()
+			if !g.knownAddr[host] || g.refusals[host] >= 10 { // (many refusals: the address manager may have given up on it)
+				continue
+			}
+			if until, banned := g.banUntil[host]; banned && g.now().Before(until) {
+				continue
+			}
+			live, outb := 0, 0
+			for _, c := range n.conns {
+				if !c.closed && !c.dead {
+					live++
+					if !c.inbound && c.handshaken() {
+						outb++
+					}
+				}
+			}
+			if outb == 0 && live < 4 {
+				out = append(out, host)
+			}
+		}
+		return out
+	}
+	deadline := g.now().Add(40 * time.Minute)
+	for len(missing()) > 0 && g.now().Before(deadline) {
+		r.Step++
+		budget := 8
+		for _, tk := range g.parkedDials() {
+			if budget == 0 {
+				break
+			}
+			budget--
+			g.answerDial(tk, true)
+			g.settle()
+		}
+		for i := 0; i < 6; i++ {
+			moved := false
+			for _, c := range g.liveConns(nil) {
+				if c.nodeEnd.PendingOut() > 0 {
+					g.deliver(c, 0)
+					g.afterDeliver(c)
+					g.settle()
+					moved = true
+				}
+			}
+			if !moved {
+				break
+			}
+		}
+		g.advance(7 * time.Second)
+	}
+	if m := missing(); len(m) > 0 {
+		r.Fail("C18", "outbound-not-restored", fmt.Sprintf("hosts=%d", len(m)), "40 simulated minutes after the faults stopped, with every dial succeeding, the service holds no outbound connection to %v although it knows the address, the host is not banned and has room under the per-host limit (outbound target 8, %d scripted hosts)", m, len(g.nodes))
+	}
+	r.Probe("outbound-restored")
+}
+
 func (g *p2pRig) finalChecks() {
 	r := g.r
+	g.outboundRestored()
 	rows := g.w.Snapshot()
 	for _, h := range chainOf(g.honest.best) {
 		row, ok := rows[h.HashStr()]
